@@ -43,7 +43,7 @@ static void escape_case(const std::string &s){ vf::eval(); vf::announce("escape 
 	{ std::ostringstream o; o<<"["<<filters::escape(s)<<"]"<<filters::escape(s); check_escaped("filters::escape-twice",s+"]"+s,o.str().substr(1)); }
 	{ widgets::text t; t.value(s); std::ostringstream o; form_context ctx(o); t.render_value(ctx); std::string r=o.str(); if(r.size()<9||r.compare(0,8," value=\"")||r[r.size()-1]!='"') bad("escape-shape:widget","text widget value attribute has an unexpected shape: "+vf::vis(r),s); else check_escaped("widgets::text",s,r.substr(8,r.size()-9)); }
 	{ widgets::textarea t; t.value(s); std::ostringstream o; form_context ctx(o); ctx.widget_part(form_flags::second_part); t.render_input(ctx); std::string r=o.str(); size_t a=r.find('>'),z=r.rfind("</textarea>"); if(a==std::string::npos||z==std::string::npos||z<a) bad("escape-shape:textarea","textarea rendering has an unexpected shape: "+vf::vis(r),s); else check_escaped("widgets::textarea",s,r.substr(a+1,z-a-1)); }
-	vf::outcome("esc|"+e1);
+	vf::outcome("esc|"+e1); { static uint64_t sc=0; if(vf::sample_tick(sc,9973)) vf::sample("{\"codec\":\"escape\",\"input_hex\":"+vf::jstr(vf::hex(s.substr(0,16)))+",\"output\":"+vf::jstr(e1.substr(0,40))+",\"sink_capacities_tried\":"+std::to_string(e1.size()+1)+"}"); }
 	// failing sinks: every capacity k
 	for(size_t k=0;k<=e1.size();k++){ vf::eval();
 		{ LimBuf lb(k); int r=util::escape(s.data(),s.data()+s.size(),lb); if(lb.got!=e1.substr(0,lb.got.size())||lb.got.size()>k) bad("escape-sink-prefix:streambuf","bytes delivered to a short sink are not a prefix of the correct output",s); if((r!=0)!=(k<e1.size())) vf::guard("info_sink_failure_not_reported"); if(k<e1.size()) vf::guard("sink_failures_seen"); }
@@ -87,7 +87,7 @@ static void b64_case(const std::string &s,bool sinks){ vf::eval(); vf::announce(
 	{ std::string out="DIRTY-OUTPUT-BUFFER"; bool ok=b64url::decode(want,out); if(!ok) bad("b64-decode-refused","decode refused text produced by encode",s); else if(out!=s) bad(s.empty()?"b64-decode-empty-dirty":"b64-decode-inverse","decode(encode(x)) into a non-empty output string gives "+vf::vis(out.substr(0,40))+" instead of x",s); }
 	{ std::string out; bool ok=b64url::decode(want,out); if(!ok||out!=s) bad("b64-decode-inverse-clean","decode(encode(x)) != x",s); }
 	{ int ds=b64url::decoded_size(want.size()); if(ds!=(int)s.size()) bad("b64-decoded_size","decoded_size(len(encode(x))) != len(x)",s); else { unsigned char *ex=new unsigned char[ds?ds:1]; const unsigned char *b=(const unsigned char*)want.data(); unsigned char *end=b64url::decode(b,b+want.size(),ex); if(end-ex!=ds||std::string((char*)ex,ds)!=s) bad("b64-decode:ptr","decode(ptr) output differs or end pointer != decoded_size",s); delete [] ex; } }
-	vf::outcome("b64|"+e);
+	vf::outcome("b64|"+e); { static uint64_t sc=0; if(vf::sample_tick(sc,20011)) vf::sample("{\"codec\":\"base64url\",\"input_hex\":"+vf::jstr(vf::hex(s.substr(0,16)))+",\"output\":"+vf::jstr(e.substr(0,40))+"}"); }
 	if(sinks) for(size_t k=0;k<=want.size();k++){ vf::eval(); LimBuf lb(k); std::ostream o(&lb); const unsigned char *b=(const unsigned char*)s.data(); b64url::encode(b,b+s.size(),o); if(lb.got!=want.substr(0,lb.got.size())) bad("b64-sink-prefix","bytes delivered to a short sink are not a prefix of the correct output",s); if(o.fail()!=(k<want.size())) vf::guard("info_sink_failure_not_reported");
 		LimBuf l2(k); std::ostream o2(&l2); o2<<filters::base64_urlencode(s); if(l2.got!=want.substr(0,l2.got.size())) bad("b64-sink-prefix:filter","bytes delivered to a short sink are not a prefix of the correct output",s); if(o.fail()!=(k<want.size())) vf::guard("info_sink_failure_not_reported"); }
 }
